@@ -513,8 +513,10 @@ func TestReplay(t *testing.T) {
 
 // ---- generators --------------------------------------------------------------
 
-var v4s = []string{"1.0.0.0/8", "2.2.0.0/16", "10.1.1.0/24"}
-var v6s = []string{"2001:db8::/32", "::/0"}
+// (each pool holds different spellings of one prefix - host bits set, upper-case hex, uncompressed
+// zeros: entries are keyed by the string the server reports, so these are different entries)
+var v4s = []string{"1.0.0.0/8", "2.2.0.0/16", "10.1.1.0/24", "10.1.1.9/24", "1.2.3.4/8"}
+var v6s = []string{"2001:db8::/32", "::/0", "2001:db8::1/32", "2001:DB8::/32", "2001:db8:0:0::/32"}
 
 func drawDet(rt *rapid.T) *Det {
 	d := &Det{Type: int64(rapid.IntRange(1, 3).Draw(rt, "optype"))}
